@@ -33,8 +33,11 @@ def has_loop(body):
 
 
 class Sym:
-    def __init__(self, P, inline_depth=4, no_inline=(), opaque_names=(), effect_names=()):
+    def __init__(self, P, inline_depth=4, no_inline=(), opaque_names=(), effect_names=(), reader_names=()):
         self.effect_names = set(effect_names)
+        # state readers: uninterpreted calls whose value depends on object state; they are versioned by the number of
+        # state-writing effects (stores through pointers, effect_names calls) executed before them on the path
+        self.reader_names = set(reader_names)
         self.P = P
         self.inline_depth = inline_depth
         self.no_inline = set(no_inline)
@@ -140,18 +143,24 @@ class Sym:
             return
         # store through a pointer: record as an effect, keyed by the normalised target
         if place["p"][0] == "*":
-            tgt = self._place(body, place, env, as_target=True)
+            tgt = self._place(body, place, env, as_target=True, raw=True)
             eff = list(env.get("#eff", ()))
             eff.append(("store", tgt, v))
             env["#eff"] = tuple(eff)
+            mem = dict(env.get("#mem", ()))
+            mem[tgt] = v
+            env["#mem"] = tuple(mem.items())
             return
         cur = env.get(l, ("undef", l))
         env[l] = update(cur, place["p"], v)
 
-    def _place(self, body, place, env, as_target=False):
+    def _place(self, body, place, env, as_target=False, raw=False):
         e = env.get(place["l"], ("undef", place["l"]))
+        mem = dict(env.get("#mem", ())) if (not raw and env.get("#mem")) else None
         for pe in place["p"]:
             e = project(e, pe)
+            if mem is not None and e in mem:
+                e = mem[e]      # store-to-load forwarding for the exact same target expression
         return e
 
     def _operand(self, body, op, env):
@@ -221,6 +230,9 @@ class Sym:
                     return self._block(cb, 0, {l + 1: a for l, a in enumerate(args)}, depth - 1, "ret")
                 except Unanalysable:
                     pass
+        if self.reader_names and f.get("name") in self.reader_names:
+            ver = len([x for x in env.get("#eff", ()) if x[0] in ("store", "callfx")])
+            return ("call", path, args, gargs, ("v", ver))
         return ("call", path, args, gargs, (0,))
 
 
